@@ -198,8 +198,11 @@ func H_C16_rotate() {
 		if newW != nil {
 			p.w = newW
 		}
+		psalt, pinfo := append([]byte(nil), newSalt...), append([]byte(nil), newInfo...)
 		out, err := ef.Process(context.Background(), newEvent(p))
 		verifAssert(out == nil && err == nil, "C16.rotate.payload-consumed-not-forwarded")
+		// C10: the rotation payload belongs to the caller (and to every other pipeline that receives the same event)
+		verifAssert(sameBytes(p.salt, psalt) && sameBytes(p.info, pinfo) && (p.salt == nil) == (newSalt == nil), "C10.rotate.payload-untouched")
 	} else {
 		var opts []Option
 		if newW != nil {
